@@ -102,6 +102,9 @@ type input struct {
 	U    map[string]string `json:"u"`
 	Root *roleIn           `json:"root"`
 	Note string            `json:"note,omitempty"`
+	// a history: the process loads Seq[Order[0]], Seq[Order[1]], ... one after the other
+	Seq   []*input `json:"seq,omitempty"`
+	Order []int    `json:"order,omitempty"`
 }
 
 // ---------------------------------------------------------------- template text
@@ -523,6 +526,65 @@ func visiblePaths(n *workflow.VerifC15Node, out *[]string) {
 	}
 }
 
+// loadAll loads one template under every switch setting; identical outcomes are grouped
+func loadAll(in *input) (string, []*obsGroup, string) {
+	doc := []byte(renderYAML(in.Root))
+	var order []string
+	groups := map[string]*obsGroup{}
+	for i, s := range settings {
+		o := loadOnce(doc, in, s)
+		g, ok := groups[o.Term]
+		if !ok {
+			g = &obsGroup{Error: o.Err}
+			if o.Tree != nil {
+				var vp []string
+				visiblePaths(o.Tree, &vp)
+				g.Roles = vp
+			}
+			groups[o.Term] = g
+			order = append(order, o.Term)
+		}
+		g.Mask |= 1 << i
+	}
+	items := make([]string, len(order))
+	obs := make([]*obsGroup, len(order))
+	for i, t := range order {
+		items[i] = gen.Pair(gen.N(uint64(groups[t].Mask)), t)
+		obs[i] = groups[t]
+	}
+	return gen.List(items), obs, string(doc)
+}
+
+// runSeq: a history of loads in this one process. The model is history-free, so every step must
+// be what the model gives for its input alone, and two steps with the same input must agree.
+func runSeq(in *input, kind string) gen.Case {
+	inputs := make([]string, len(in.Seq))
+	yamls := make([]string, len(in.Seq))
+	for i, x := range in.Seq {
+		inputs[i] = gen.Pair(ctxTerm(x), x.Root.term())
+		yamls[i] = renderYAML(x.Root)
+	}
+	steps := make([]string, 0, len(in.Order))
+	var obs []map[string]any
+	for _, idx := range in.Order {
+		if idx < 0 || idx >= len(in.Seq) {
+			continue
+		}
+		term, groups, _ := loadAll(in.Seq[idx])
+		steps = append(steps, gen.Pair(fmt.Sprintf("%d%%nat", idx), term))
+		obs = append(obs, map[string]any{"input": idx, "outcomes": groups})
+	}
+	term := fmt.Sprintf("CSeq %s %s", gen.List(inputs), gen.List(steps))
+	return gen.Case{Term: term, Kind: kind, Input: in, Obs: map[string]any{"yamls": yamls, "steps": obs}}
+}
+
+func runAny(in *input, kind string) gen.Case {
+	if len(in.Seq) > 0 {
+		return runSeq(in, kind)
+	}
+	return runCase(in, kind)
+}
+
 func runCase(in *input, kind string) gen.Case {
 	doc := []byte(renderYAML(in.Root))
 	var order []string
@@ -594,6 +656,8 @@ type gctx struct {
 	numK   []string // environment keys holding numbers
 
 	nest  bool        // nested-iterator template: a chain of 2-3 iterators is forced below the root
+	clean bool        // no fault injection
+	defd  []string    // names defined by the roles generated so far (defaults, vars, iteration variables)
 	iters []*iterInfo // enclosing iterators of the role being generated, outermost first
 }
 
@@ -657,13 +721,38 @@ func (g *gctx) maybeFault(cls string, sc scope) (texpr, bool) {
 		return nil, false
 	}
 	g.hit = true
-	switch g.r.Intn(3) {
+	switch g.r.Intn(5) {
 	case 0:
 		return texpr{bad(g.r.Intn(len(badForms)))}, true
 	case 1:
 		return texpr{lit("p"), pvar("undefined_" + cls)}, true
-	default:
+	case 2:
 		return texpr{piece{Eq: &[2]string{"nokey", "a"}}}, true
+	default:
+		// a name that is valid elsewhere but not here: defined by a role generated before (a
+		// sibling subtree, an iterator left behind) or an environment key this case does not set.
+		// The expression text is the one other roles / other workflows evaluate successfully.
+		var cands []string
+		for _, k := range g.defd {
+			if !sc[k] {
+				cands = append(cands, k)
+			}
+		}
+		if len(cands) == 0 || g.r.Chance(1, 3) {
+			for _, k := range keyPool {
+				if !sc[k] {
+					cands = append(cands, k)
+				}
+			}
+		}
+		if len(cands) == 0 {
+			return texpr{lit("p"), pvar("undefined_" + cls)}, true
+		}
+		k := cands[g.r.Intn(len(cands))]
+		if g.r.Chance(1, 4) {
+			return texpr{piece{Eq: &[2]string{k, g.r.Pick(valPool)}}}, true
+		}
+		return texpr{pvar(k)}, true
 	}
 }
 
@@ -1052,6 +1141,10 @@ func (g *gctx) roleOpt(depth int, sc scope, o ropt) *roleIn {
 		}
 	}
 	sc3 := sc2.with(keysOf(ro.Vars)...)
+	g.defd = append(append(g.defd, keysOf(ro.Defaults)...), keysOf(ro.Vars)...)
+	if ro.For != nil {
+		g.defd = append(g.defd, ro.For.Var)
+	}
 	// name
 	if t, ok := g.maybeFault("name", sc3); ok {
 		ro.Name = t
@@ -1175,9 +1268,11 @@ func trimExpr(t texpr) texpr {
 
 var faultKinds = []string{"enabled", "defaults", "vars", "name", "s4", "s5", "range", "rangeval"}
 
-func genInput(r *gen.Rand, idx int) *input {
+func genInput(r *gen.Rand, idx int) *input { return genInputOpt(r, idx, false) }
+
+func genInputOpt(r *gen.Rand, idx int, clean bool) *input {
 	in := &input{D: map[string]string{}, V: map[string]string{}, U: map[string]string{}}
-	g := &gctx{r: r, budget: r.Range(3, 14), fault: -1}
+	g := &gctx{r: r, budget: r.Range(3, 14), fault: -1, clean: clean}
 	sc := scope{}
 	put := func(m map[string]string, k, v string) { m[k] = v; sc[k] = true }
 	for _, k := range keyPool {
@@ -1232,7 +1327,7 @@ func genInput(r *gen.Rand, idx int) *input {
 	if g.nest {
 		pf = 25
 	}
-	if r.Chance(pf, 100) {
+	if r.Chance(pf, 100) && !g.clean {
 		g.fkind = faultKinds[idx%len(faultKinds)]
 		g.fault = r.Range(1, 3)
 		if g.nest {
@@ -1252,6 +1347,157 @@ func genInput(r *gen.Rand, idx int) *input {
 		}
 	}
 	return in
+}
+
+// ---------------------------------------------------------------- histories
+
+func cloneInput(in *input) *input {
+	raw, _ := json.Marshal(in)
+	var out input
+	_ = json.Unmarshal(raw, &out)
+	if out.D == nil {
+		out.D = map[string]string{}
+	}
+	if out.V == nil {
+		out.V = map[string]string{}
+	}
+	if out.U == nil {
+		out.U = map[string]string{}
+	}
+	return &out
+}
+
+// useVar plants a reference to the variable hv in a field of the root role (always evaluated) or
+// of its first child; where selects the field.
+func useVar(root *roleIn, hv string, where int) string {
+	ref := texpr{lit("p"), pvar(hv)}
+	switch where % 7 {
+	case 0:
+		root.Vars = append(root.Vars, field{"hk", ref})
+		return "vars"
+	case 1:
+		root.Defaults = append(root.Defaults, field{"hk", texpr{pvar(hv)}})
+		return "defaults"
+	case 2:
+		root.Name = append(append(texpr{}, root.Name...), pvar(hv))
+		return "name"
+	case 3:
+		root.Constraints = append(root.Constraints, field{"rack", ref})
+		return "constraint"
+	case 4:
+		t := texpr{piece{Ne: &[2]string{hv, "never"}}}
+		root.Enabled = &t
+		return "enabled"
+	case 5:
+		k := &roleIn{Kind: "task", Name: texpr{lit("ht-"), pvar(hv)}, Load: texpr{lit("c-"), pvar(hv)}}
+		root.Kids = append([]*roleIn{k}, root.Kids...)
+		return "child name+load"
+	default:
+		k := &roleIn{Kind: "task", Name: texpr{lit("hi"), pvar("hj")}, Load: tl("c"),
+			For: &forIn{BE: true, Begin: tl("1"), End: texpr{pvar(hv)}, Var: "hj"}}
+		root.Kids = append(root.Kids, k)
+		return "range end"
+	}
+}
+
+// genHistory: one generated template loaded several times by the same process with and without
+// a variable it needs (and with another value of it), in orders that put the valid load before
+// the invalid one. The variable's name is new to the process, so the texts `{{ hv… }}` have
+// never been evaluated before the history starts.
+func genHistory(r *gen.Rand, idx int) *input {
+	base := genInputOpt(r.Fork(), idx, true)
+	hv := fmt.Sprintf("hv%d", idx)
+	where := useVar(base.Root, hv, r.Intn(7))
+	withV := cloneInput(base)
+	val := "1"
+	switch r.Intn(3) {
+	case 0:
+		withV.D[hv] = val
+	case 1:
+		withV.V[hv] = val
+	default:
+		withV.U[hv] = val
+	}
+	without := cloneInput(base)
+	other := cloneInput(withV)
+	for _, m := range []map[string]string{other.D, other.V, other.U} {
+		if _, ok := m[hv]; ok {
+			m[hv] = "2"
+		}
+	}
+	h := &input{Seq: []*input{withV, without, other}}
+	switch r.Intn(5) {
+	case 0:
+		h.Order = []int{1, 0, 1}
+	case 1:
+		h.Order = []int{0, 1}
+	case 2:
+		h.Order = []int{0, 2, 0}
+	case 3:
+		h.Order = []int{0, 1, 2, 1, 0}
+	default:
+		h.Order = []int{1, 2, 1, 0}
+	}
+	h.Note = "history " + where
+	return h
+}
+
+func historyCorpus() []*input {
+	empty := func() map[string]string { return map[string]string{} }
+	mk := func(hv string, d, v, u map[string]string, kids ...*roleIn) *input {
+		return &input{D: d, V: v, U: u, Root: &roleIn{Kind: "agg", Name: tl("root"), Kids: kids}}
+	}
+	var out []*input
+	// 1. the same workflow with and without the variable: invalid, valid, invalid again
+	t := func(hv string) *roleIn {
+		return &roleIn{Kind: "task", Name: texpr{lit("t-"), pvar(hv)}, Load: texpr{lit("c-"), pvar(hv)}}
+	}
+	out = append(out, &input{Note: "history: invalid, valid, invalid again", Order: []int{1, 0, 1},
+		Seq: []*input{mk("hva", empty(), map[string]string{"hva": "1"}, empty(), t("hva")), mk("hva", empty(), empty(), empty(), t("hva"))}})
+	// 2. valid first, then the invalid one (never loaded while the text was new)
+	out = append(out, &input{Note: "history: valid then invalid", Order: []int{0, 1},
+		Seq: []*input{mk("hvb", empty(), empty(), map[string]string{"hvb": "a"}, t("hvb")), mk("hvb", empty(), empty(), empty(), t("hvb"))}})
+	// 3. two different workflows sharing expression texts: one defines the name in a role, the other does not
+	defs := &roleIn{Kind: "agg", Name: tl("g"), Vars: []field{{"hvc", tl("1")}},
+		Kids: []*roleIn{{Kind: "task", Name: texpr{lit("t"), pvar("hvc")}, Load: tl("c"),
+			Enabled: tptr(texpr{piece{Eq: &[2]string{"hvc", "1"}}})}}}
+	uses := &roleIn{Kind: "agg", Name: tl("g"),
+		Kids: []*roleIn{{Kind: "task", Name: texpr{lit("t"), pvar("hvc")}, Load: tl("c"),
+			Enabled: tptr(texpr{piece{Eq: &[2]string{"hvc", "1"}}})}}}
+	out = append(out, &input{Note: "history: two workflows sharing expression texts", Order: []int{1, 0, 1, 0},
+		Seq: []*input{mk("", empty(), empty(), empty(), defs), mk("", empty(), empty(), empty(), uses)}})
+	// 4. same texts, another value: a result remembered by text would show
+	out = append(out, &input{Note: "history: same texts, other value", Order: []int{0, 1, 0},
+		Seq: []*input{mk("hvd", map[string]string{"hvd": "1"}, empty(), empty(), t("hvd")), mk("hvd", map[string]string{"hvd": "2"}, empty(), empty(), t("hvd"))}})
+	// 5. range end from the variable
+	it := func(hv string) *roleIn {
+		return &roleIn{Kind: "task", Name: texpr{lit("i"), pvar("hj")}, Load: tl("c"),
+			For: &forIn{BE: true, Begin: tl("1"), End: texpr{pvar(hv)}, Var: "hj"}}
+	}
+	out = append(out, &input{Note: "history: range end valid then out of scope", Order: []int{0, 1, 0},
+		Seq: []*input{mk("hve", empty(), map[string]string{"hve": "2"}, empty(), it("hve")), mk("hve", empty(), empty(), empty(), it("hve"))}})
+	// single workflows: a subtree defines the name for itself and uses it, its sibling uses the
+	// same text without having the name (both orders): the load must fail whatever ran first
+	sib := func(hv string, definesFirst bool) *input {
+		a := &roleIn{Kind: "agg", Name: tl("a"), Vars: []field{{hv, tl("1")}},
+			Kids: []*roleIn{{Kind: "task", Name: texpr{lit("t-"), pvar(hv)}, Load: tl("c")}}}
+		b := &roleIn{Kind: "agg", Name: tl("b"),
+			Kids: []*roleIn{{Kind: "task", Name: texpr{lit("t-"), pvar(hv)}, Load: tl("c")}}}
+		if definesFirst {
+			return mk("", empty(), empty(), empty(), a, b)
+		}
+		return mk("", empty(), empty(), empty(), b, a)
+	}
+	s1 := sib("hvf", true)
+	s1.Note = "sibling defines the name, the other subtree uses the same text without it"
+	s2 := sib("hvg", false)
+	s2.Note = "sibling order reversed"
+	// the iteration variable used after its iterator (same text, out of scope)
+	s3 := mk("", empty(), empty(), empty(),
+		&roleIn{Kind: "task", Name: texpr{lit("i"), pvar("hvh")}, Load: tl("c"), For: &forIn{Range: tl(`["p","q"]`), Var: "hvh"}},
+		&roleIn{Kind: "task", Name: texpr{lit("x"), pvar("hvh")}, Load: tl("c")})
+	s3.Note = "iteration variable used outside its iterator"
+	return append(out, s1, s2, s3)
 }
 
 // ---------------------------------------------------------------- corpus (runs first)
@@ -1479,12 +1725,16 @@ func main() {
 			if err := json.Unmarshal(raw, &in); err != nil {
 				panic(err)
 			}
-			if in.Root == nil {
+			if in.Root == nil && len(in.Seq) == 0 {
 				continue
 			}
-			cases = append(cases, runCase(&in, kinds[i]))
+			cases = append(cases, runAny(&in, kinds[i]))
 		}
 	} else {
+		// histories first: their variable names are new to the process at that point
+		for _, in := range historyCorpus() {
+			cases = append(cases, runAny(in, "corpus"))
+		}
 		for _, in := range corpus() {
 			cases = append(cases, runCase(in, "corpus"))
 		}
@@ -1496,12 +1746,17 @@ func main() {
 				continue
 			}
 			var in input
-			if json.Unmarshal(raw, &in) == nil && in.Root != nil {
-				cases = append(cases, runCase(&in, "corpus"))
+			if json.Unmarshal(raw, &in) == nil && (in.Root != nil || len(in.Seq) > 0) {
+				cases = append(cases, runAny(&in, "corpus"))
 			}
 		}
 		r := gen.NewRand(o.Seed)
 		for i := 0; i < o.N; i++ {
+			if i%12 == 7 { // 8% histories of loads in this one process
+				in := genHistory(r.Fork(), i)
+				cases = append(cases, runSeq(in, in.Note))
+				continue
+			}
 			in := genInput(r.Fork(), i)
 			kind := "clean"
 			if in.Note != "" {
